@@ -243,6 +243,7 @@ impl Prop for C13 {
             kind_weights: [3, 2, 3, 1, 1],
             max_tags: 2,
             extreme_ids: false,
+            tag_values: 0,
         };
         let n_random = tier.pick(0usize, 12);
         (
